@@ -45,6 +45,5 @@ def main():
     }
     with open(os.path.join(ROOT, "MANIFEST.json"), "w") as f:
         json.dump(m, f, indent=1)
-    import jsonschema  # noqa
 if __name__ == "__main__":
     main()
